@@ -329,7 +329,7 @@ pub fn run_case(c: &Case) -> (Vec<(String, String)>, usize) {
 }
 
 fn menu(thorough: bool) -> Vec<Case> {
-    let libs = ["libfix_sha1.so", "libfix_8.so", "libfix_none.so", "libfix_zero.so", "libfix_nosoname.so", "lib with space.so", "libnonascii_\u{e9}.so", "libver.so.6.0.32", "libver2.so.3.34.2rc5"];
+    let libs = ["libfix_sha1.so", "libfix_8.so", "libfix_none.so", "libfix_zero.so", "libfix_nosoname.so", "lib with space.so", "libnonascii_\u{e9}.so", "libver.so.6.0.32", "libver2.so.3.34.2rc5", "libastral_\u{1f980}_x.so"];
     let mut v = Vec::new();
     for user in 0..8u8 {
         // each library alone
@@ -371,7 +371,7 @@ fn menu(thorough: bool) -> Vec<Case> {
 }
 
 pub fn run(ctx: &Ctx, rep: &mut Report) {
-    rep.rule = "menu: 9 fixture libraries (build id sha1 / 8 bytes / none / all-zero, with/without SONAME, names with spaces / non-ASCII / .so.N suffixes) dlopen'ed alone and together, a library unlinked after loading, a library replaced on disk by a different one at the same path with both mapped, whole-file and offset mappings of ELF / non-ELF / truncated / archive-embedded images, each under 8 user-mapping lists (none, disjoint, containing, partially overlapping, two entries in descending / ascending order, an entry without identifier, entries with all-zero identifiers); a position-dependent (ET_EXEC) main executable intact / unlinked / replaced on disk; plus the puppet binary, libc, ld.so and the vDSO in every case. nontrivial = cases whose expected module list has at least 4 entries".into();
+    rep.rule = "menu: 10 fixture libraries (build id sha1 / 8 bytes / none / all-zero, with/without SONAME, names with spaces / non-ASCII / characters outside the BMP / .so.N suffixes) dlopen'ed alone and together, a library unlinked after loading, a library replaced on disk by a different one at the same path with both mapped, whole-file and offset mappings of ELF / non-ELF / truncated / archive-embedded images, each under 8 user-mapping lists (none, disjoint, containing, partially overlapping, two entries in descending / ascending order, an entry without identifier, entries with all-zero identifiers); a position-dependent (ET_EXEC) main executable intact / unlinked / replaced on disk; plus the puppet binary, libc, ld.so and the vDSO in every case. nontrivial = cases whose expected module list has at least 4 entries".into();
     rep.assume("shapes whose expected treatment the statement leaves open (a non-executable mapping at a non-zero offset) are in the menu only as 'must not produce a wrong module', never as 'must be listed'");
     if let Some(case) = &ctx.replay {
         let Some(c) = Case::from_json(case) else {
